@@ -39,7 +39,7 @@ StepTheoremsBounded == ncalls < MaxCalls => StepTheorems
 
 \* ---- emitter (always-true invariant)
 DirRec(d) == [dir |-> d, wtml |-> dirs[d].wtml, lay |-> dirs[d].lay, rng |-> dirs[d].rng, tiles |-> dirs[d].tiles,
-              wt |-> dirs[d].wt, by |-> dirs[d].by]
+              wt |-> dirs[d].wt, by |-> dirs[d].by, wk |-> dirs[d].wk]
 Record == [hist |-> hist, ret |-> ret, dirs |-> {DirRec(d) : d \in {e \in DirIds : dirs[e].ex}},
            ideal |-> [ReturnedDescribesDisk |-> ReturnedDescribesDisk, ServedIsRequested |-> ServedIsRequested,
                       ServedProjectionIsChosen |-> ServedProjectionIsChosen, NoPartialDirectory |-> NoPartialDirectory,
